@@ -206,6 +206,9 @@ func runC19(c *core.Ctx) {
 			idx++
 		}
 	}
+	if c.Shard < 2 {
+		c19NearSchemaValues(c, detailsOff)
+	}
 	if !detailsOff {
 		// the request level runs where details are on: a lost customiser then shows as the default message with its value
 		runC19Requests(c)
@@ -384,5 +387,78 @@ func replayC19(c *core.Ctx, raw json.RawMessage) {
 	}
 	if sc, err := kinSchema(s); err == nil {
 		c19Schema(c, s, sc, []any{v}, false, off)
+	}
+}
+
+// c19NearSchemaValues: rejected strings that are near the schema's own constants - an enum member in other letter case, with
+// a blank before or after it, with one character changed - wherever the enum sits. What the schema says may be quoted; what the
+// client sent may not, however close it is to it.
+func c19NearSchemaValues(c *core.Ctx, detailsOff bool) {
+	members := []string{"k3y-a1b2c3d4-prod", "Tok-En-Two-Zz91", "alpha"}
+	en := gen.S{"type": "string", "enum": gen.Arr(members[0], members[1], members[2])}
+	schemas := []gen.S{en, {"type": "object", "properties": gen.S{"token": en}}, {"type": "array", "items": en}, {"allOf": gen.Arr(en)}, {"oneOf": gen.Arr(en, gen.S{"type": "integer"})},
+		{"anyOf": gen.Arr(en, gen.S{"type": "integer"})}, {"type": "object", "additionalProperties": en}, {"type": "object", "properties": gen.S{"l": gen.S{"type": "array", "items": gen.S{"type": "object", "properties": gen.S{"token": en}}}}},
+		{"enum": gen.Arr(members[0], 7.0, members[1])}, {"type": "string", "enum": gen.Arr(members[0]), "minLength": 3.0}}
+	var variants []string
+	for _, m := range members {
+		sw := []rune(m)
+		for i, r := range sw {
+			switch {
+			case r >= 'a' && r <= 'z':
+				sw[i] = r - 32
+			case r >= 'A' && r <= 'Z':
+				sw[i] = r + 32
+			}
+		}
+		ch := []rune(m)
+		ch[len(ch)-1] = 'q'
+		variants = append(variants, strings.ToUpper(m), strings.ToLower(m), string(sw), " "+m, m+" ", "\t"+m+"\n", " "+strings.ToUpper(m)+" ", string(ch), m+m, m[:len(m)-1])
+	}
+	modes := []struct {
+		name string
+		opts []openapi3.SchemaValidationOption
+	}{{"default", nil}, {"multi", []openapi3.SchemaValidationOption{openapi3.MultiErrors()}}, {"reason-only", []openapi3.SchemaValidationOption{openapi3.SetSchemaErrorMessageCustomizer(reasonOnly)}},
+		{"asRequest", []openapi3.SchemaValidationOption{openapi3.VisitAsRequest()}}, {"asResponse+multi", []openapi3.SchemaValidationOption{openapi3.VisitAsResponse(), openapi3.MultiErrors()}}}
+	for _, s := range schemas {
+		sc, err := kinSchema(s)
+		if err != nil {
+			continue
+		}
+		sCanon := gen.Canon(s)
+		said := sCanon + " " + fmt.Sprint(members) + " " + strings.Join(members, ",")
+		for _, variant := range variants {
+			if strings.Contains(said, variant) {
+				continue // the schema itself says this text
+			}
+			for _, v := range []any{variant, gen.S{"token": variant}, gen.Arr(variant), gen.S{"other": variant}, gen.S{"l": gen.Arr(gen.S{"token": variant})}} {
+				for _, m := range modes {
+					var verr error
+					c.Eval()
+					kv := gen.CloneValue(v)
+					if pi := core.Guard(func() { verr = sc.VisitJSON(kv, m.opts...) }); pi != nil || verr == nil {
+						continue
+					}
+					c.Cover("workload", "rejected strings near the schema's own constants")
+					leak := func(where, text string) {
+						if strings.Contains(text, variant) {
+							c.Violate(map[string]string{"kind": "value_in_" + where, "template": reasonTemplate(strings.ReplaceAll(core.Truncate(text, 120), variant, "<VALUE>")), "field": "near-constant"},
+								c19W(s, v, m.name, where, text), fmt.Sprintf("rejected string %q (near the enum member, not in the schema) found in %s: %q\nschema=%s", variant, where, core.Truncate(text, 400), sCanon))
+						}
+					}
+					walkErrors(verr, 0, func(e error, depth int) {
+						if se, ok := e.(*openapi3.SchemaError); ok {
+							leak("reason", se.Reason)
+						}
+					})
+					if detailsOff {
+						leak("error_details_disabled", verr.Error())
+					}
+					if m.name == "reason-only" {
+						leak("customised_message", verr.Error())
+					}
+					c.Distinct("near\x00" + sCanon + "\x00" + gen.Canon(v) + m.name)
+				}
+			}
+		}
 	}
 }
